@@ -49,6 +49,7 @@ def main():
         print("cannot find the demo run command")
         return 2
     run, pkg = m2.group(1), m2.group(2)
+    tags = "-tags verif " if ("-tags verif" in cmd or "-tags verif" in head) else ""
     wt = "/tmp/seedchk/" + sid
     shutil.rmtree(wt, ignore_errors=True)
     os.makedirs("/tmp/seedchk", exist_ok=True)
@@ -56,10 +57,10 @@ def main():
     if rc != 0:
         print(out)
         return 2
-    result = {"seed": sid, "demo_location": rel, "demo_run": "go test -vet=off -count=1 -run '%s' %s" % (run, pkg)}
+    result = {"seed": sid, "demo_location": rel, "demo_run": "go test %s-vet=off -count=1 -run '%s' %s" % (tags, run, pkg)}
     try:
         shutil.copyfile(demo_src, os.path.join(wt, rel))
-        democmd = "go test -vet=off -count=1 -run '%s' %s" % (run, pkg)
+        democmd = "go test %s-vet=off -count=1 -run '%s' %s" % (tags, run, pkg)
         rc, out = sh(democmd, wt)
         result["demo_without_change"] = "PASS" if rc == 0 else "FAIL"
         if rc != 0:
